@@ -18,6 +18,7 @@ from .._exceptions import (
     ConnectionNotAvailable,
     LocalProtocolError,
     RemoteProtocolError,
+    WriteError,
     map_exceptions,
 )
 from .._models import Origin, Request, Response
@@ -505,6 +506,17 @@ class AsyncHTTP2Connection(AsyncConnectionInterface):
                 #    incoming requests.
                 self._write_exception = exc
                 self._connection_error = True
+                raise exc
+            except BaseException as exc:
+                # If the write is cancelled then the data we took from the h2
+                # state is lost, or has only been sent in part. The frames of
+                # every stream are serialised through here, so none of the
+                # streams can continue. Fail future writes, and close the
+                # network stream so that pending reads fail too.
+                self._write_exception = WriteError("Write was cancelled.")
+                self._connection_error = True
+                with AsyncShieldCancellation():
+                    await self._network_stream.aclose()
                 raise exc
 
     # Flow control...
